@@ -623,8 +623,15 @@ def run(ctx):
                 "(0..2 vertices, NaN/inf, coordinate differences around the tolerance, other tolerances, "
                 "caller-supplied and wrong-length inside vectors); the bare kernel (ctypes) on the true extent "
                 "with a zero-filled vector; grids up to 12x12 (thorough 30x30) x polygons for "
-                "cells_inside_polygon. non-trivial = distinct (kind, family, variant, features, answer "
-                "classes) signature")
+                "cells_inside_polygon; Grid objects with a history (80 sequences, thorough 600: constructor / "
+                "from_dict, then 2..5 of: xllcorner / yllcorner / cellsize assigned in place, clone / "
+                "clone(dtype) / deepcopy / copy / pickle / apply / to_dict-from_dict copies of which one side "
+                "is moved or rescaled and both are asked, clip, other methods and data edits, edits of the "
+                "returned table, new polygon, same polygon ndarray rewritten in place; a query after every "
+                "step, the polygon following the grid or staying where it was); sequences of 3..5 calls of "
+                "points_inside_polygon on the caller's arrays (points / polygon arrays rewritten in place, "
+                "answer vector handed back, vectors returned earlier still held). non-trivial = distinct "
+                "(kind, family, variant, features, answer classes) signature")
     ctx.trusted = cm.STD_TRUST + [
         "numpy min/max of a column (NaN-propagating) is modelled, validated by correspondence",
         "pandas DataFrame construction / boolean-mask indexing in cells_inside_polygon are modelled as a "
@@ -930,6 +937,204 @@ def run(ctx):
         idx = add(term_cells(case, out), {"call": "Grid.cells_inside_polygon", "case": case, "impl": out},
                   ("cells", fam, min(nrows, 3), min(ncols, 3), None if out is None else min(len(out), 3)))
         judge_cells(idx, case, out)
+
+    # ---- Grid objects with a history: the cells returned are those of the geometry the object
+    # has NOW (attributes assigned in place, copies edited independently of their source),
+    # whatever was asked of the object, of its source or of its copies before
+    def life_query(life, step, sig):
+        """run a query step, add it to the correspondence, judge it"""
+        out = life.do(step)
+        case = life.case(step)
+        idx = add(term_cells(case, out),
+                  {"call": "sequence of operations on Grid objects (steps, in order; objects are numbered "
+                           "in order of creation by new/copy/clip), the last one being "
+                           "Grid.cells_inside_polygon on the grid of 'case'",
+                   "steps": copy.deepcopy(life.steps), "case": case, "impl": out}, sig)
+        return idx, judge_cells(idx, case, out)
+
+    def run_life_steps(steps):
+        life = GridLife()
+        for st in steps:
+            st = {k: v for k, v in st.items() if k != "raised"}
+            if st["op"] == "query":
+                life_query(life, st, ("life-replay",))
+            else:
+                life.do(st)
+
+    if getattr(ctx, "replay", None):
+        rp = ctx.replay.get("replay", ctx.replay)
+        rp = rp.get("first_mismatch", rp)
+        if isinstance(rp.get("steps"), list):
+            run_life_steps(rp["steps"])
+
+    nlife = ctx.scale(80, 600)
+    for _l in range(nlife):
+        life = GridLife()
+        geom0 = random_geom(rng, ctx)
+        life.do({"op": "new", "how": rng.choice(["init", "init", "from_dict"]), "geom": geom0})
+        fam, cpoly = cell_polygon(rng, geom0["nrows"], geom0["ncols"])
+        world = place(life.geom[0], cpoly)      # the polygon last asked about
+        last = {}                               # object -> (cpoly, geometry, judged answers, cells) of its last query
+        history = []
+
+        def ask(k, follow):
+            """query object k; follow: the polygon keeps its place RELATIVE to the grid
+            (it is translated / scaled together with the grid), else it stays where it was"""
+            nonlocal world
+            g = life.geom[k]
+            if follow:
+                world = place(g, cpoly)
+            atol = rng.choice([ATOL] * 6 + [0.0, 1e-3 * g["csz"]])
+            step = {"op": "query", "obj": k, "poly": list(world), "atol": atol,
+                    "inplace": rng.random() < 0.7}
+            cm.mark({"call": "Grid life cycle", "steps": life.steps + [step]})
+            idx, res = life_query(life, step, ("life", tuple(history[-3:]), fam, follow,
+                                               min(g["nrows"] * g["ncols"], 4)))
+            prev = last.get(k)
+            if res is not None and follow:
+                exp, got = res
+                if prev is not None and prev[0] is cpoly and prev[1] != g \
+                        and (prev[1]["nrows"], prev[1]["ncols"]) == (g["nrows"], g["ncols"]):
+                    pexp, pgot = prev[2], prev[3]
+                    kind = "grid-translate" if prev[1]["csz"] == g["csz"] else "grid-scale"
+                    for c, w in exp.items():
+                        if pexp.get(c) != w:
+                            continue       # near an edge in one of the two configurations
+                        stats["invariance_pairs"] += 1
+                        if (c in got) != (c in pgot):
+                            fail(idx, f"C15/invariance/{kind}",
+                                 f"cell {c} {'returned' if c in pgot else 'not returned'} for the grid {prev[1]!r}, "
+                                 f"{'returned' if c in got else 'not returned'} after moving/rescaling grid and "
+                                 f"polygon together to {g!r} (attributes assigned in place on the object, or on a copy of the object asked before)")
+                last[k] = (cpoly, dict(g), exp, got)
+            else:
+                last.pop(k, None)
+
+        ask(0, True)
+        for _s in range(rng.randint(2, 5)):
+            k = rng.randrange(len(life.objs))
+            g = life.geom[k]
+            act = rng.choice(["move", "move", "rescale", "both", "copy", "copy", "clip", "touch",
+                              "scribble", "newpoly", "again"])
+            history.append(act)
+            follow = rng.random() < 0.6
+            if act in ("move", "rescale", "both"):
+                st = {"op": "set", "obj": k, "np": rng.random() < 0.3}
+                if act != "rescale":
+                    which = rng.choice(["x", "y", "xy"])
+                    if "x" in which:
+                        st["xll"] = new_corner(rng, g["xll"], g["csz"])
+                    if "y" in which:
+                        st["yll"] = new_corner(rng, g["yll"], g["csz"])
+                if act != "move":
+                    st["csz"] = new_cellsize(rng, g["csz"])
+                life.do(st)
+                ask(k, follow)
+            elif act == "copy":
+                how = rng.choice(COPY_HOW)
+                history[-1] = how
+                j = life.do({"op": "copy", "obj": k, "how": how})
+                if j is None:
+                    continue
+                if k in last:
+                    last[j] = last[k]
+                # one of the two is moved / rescaled, then BOTH are asked
+                m = rng.choice([k, j])
+                gm = life.geom[m]
+                st = {"op": "set", "obj": m, "np": rng.random() < 0.3}
+                what = rng.choice(["x", "y", "xy", "csz", "all"])
+                if what in ("x", "xy", "all"):
+                    st["xll"] = new_corner(rng, gm["xll"], gm["csz"])
+                if what in ("y", "xy", "all"):
+                    st["yll"] = new_corner(rng, gm["yll"], gm["csz"])
+                if what in ("csz", "all"):
+                    st["csz"] = new_cellsize(rng, gm["csz"])
+                life.do(st)
+                first, second = rng.sample([k, j], 2)
+                ask(first, True)
+                ask(second, True)
+            elif act == "clip":
+                nr, nc = g["nrows"], g["ncols"]
+                c0 = rng.randrange(nc)
+                c1 = rng.randrange(c0, nc)
+                r0 = rng.randrange(nr)
+                r1 = rng.randrange(r0, nr)      # rows counted from the bottom
+                box = [g["xll"] + g["csz"] * (c0 + 0.5), g["yll"] + g["csz"] * (r0 + 0.5),
+                       g["xll"] + g["csz"] * (c1 + 0.5), g["yll"] + g["csz"] * (r1 + 0.5)]
+                j = life.do({"op": "clip", "obj": k, "box": box})
+                if j is None:
+                    continue
+                ask(j, False)      # the polygon stays: the clipped grid sees a part of it
+                ask(k, False)
+            elif act == "touch":
+                life.do({"op": "touch", "obj": k, "what": rng.choice(TOUCH_WHAT)})
+                ask(k, follow)
+            elif act == "scribble":
+                life.do({"op": "scribble", "obj": k})
+                ask(k, follow)
+            elif act == "newpoly":
+                fam, cpoly = cell_polygon(rng, g["nrows"], g["ncols"])
+                ask(k, True)
+            else:
+                ask(k, follow)
+
+    # ---- the caller's arrays with a history: points / polygon arrays rewritten in place between
+    # calls, the answer vector handed back, answers of earlier calls still held by the caller
+    def run_calls(calls, fam, sig0):
+        arr = ArrayLife()
+        held = []
+        for n, st in enumerate(calls):
+            raw, out = arr.call(st)
+            case = {"pts": [tuple(p) for p in st["pts"]], "poly": [tuple(p) for p in st["poly"]], "atol": None,
+                    "inside_len": len(st["pts"]) if st["inside"] == "own" else None}
+            idx = add(term_inside(case, out),
+                      {"call": "sequence of calls of gutils.points_inside_polygon on the caller's arrays "
+                               "(same_*_array: the ndarray of the previous call rewritten in place; inside=own: "
+                               "the caller's answer vector, holding the previous answers); 'case' is the last call",
+                       "family": fam, "calls": calls[:n + 1], "case": case, "impl": out},
+                      sig0 + (n if n < 3 else 3, st["what"], st["inside"], out is None))
+            exp = judge_points(idx, case, out)
+            # answers of earlier calls (vectors allocated by the function) are still what they were
+            for hidx, hraw, hout, hexp, hn in held:
+                now = [int(v) for v in hraw]
+                for i, w in enumerate(hexp):
+                    if w is not None and hout[i] == w and now[i] != w:
+                        fail(idx, "C15/points_inside_polygon/earlier-answer-overwritten",
+                             f"the vector returned by call {hn} said {hout[i]} for point {calls[hn]['pts'][i]!r} "
+                             f"(even-odd rule {w}); after call {n} the same vector says {now[i]}")
+                        break
+            if raw is not None and exp is not None and st["inside"] is None:
+                held.append((idx, raw, out, exp, n))
+
+    if getattr(ctx, "replay", None):
+        rp = ctx.replay.get("replay", ctx.replay)
+        rp = rp.get("first_mismatch", rp)
+        if isinstance(rp.get("calls"), list):
+            run_calls(rp["calls"], rp.get("family", "?"), ("calls-replay",))
+
+    nseq = ctx.scale(70, 600)
+    for _q in range(nseq):
+        fam, upoly = base_polygon(rng)
+        npts = rng.randint(10, 16)
+        upts = base_points(rng, upoly, npts)
+        c, off = affine(rng)
+        calls = [{"pts": apply_affine(c, off, upts), "poly": apply_affine(c, off, upoly),
+                  "same_pts_array": False, "same_poly_array": False,
+                  "inside": rng.choice([None, None, "own"]), "what": "first"}]
+        for _c in range(rng.randint(2, 4)):
+            what = rng.choice(["repeat", "polygon", "polygon", "points", "both", "fresh"])
+            if what in ("polygon", "both"):
+                kind, upoly, _ = polygon_edit(rng, upoly, upts)
+                what = what + "-" + kind
+            elif what == "fresh":          # most often another number of vertices: a new array
+                _, upoly = base_polygon(rng)
+            if what.startswith(("points", "both")):
+                upts = base_points(rng, upoly, npts)
+            calls.append({"pts": apply_affine(c, off, upts), "poly": apply_affine(c, off, upoly),
+                          "same_pts_array": rng.random() < 0.8, "same_poly_array": rng.random() < 0.8,
+                          "inside": rng.choice([None, None, "own"]), "what": what})
+        cm.mark({"call": "gutils.points_inside_polygon sequence", "calls": calls})
+        run_calls(calls, fam, ("calls", fam))
 
     # ---- correspondence inside Coq
     bad, nshards, failed = cm.run_case_files(PID, HEADER, "pcase", "p_ok", terms, shard=150,
